@@ -175,6 +175,7 @@ def main(run):
     disagree = []
     for i, ln in enumerate(lines):
         mo, co = om[i], oc[i]
+        co_cmp = G.strip_hashes(co)
         run.count(ln, nontrivial(ln, co))
         run.hist("kind", kinds[i])
         if ln.startswith("rpd") or ln.startswith("rpx"):
@@ -206,12 +207,12 @@ def main(run):
                 run.violation(what, "case: %s\nimpl: %s\nmodel (repaired code): %s\n\noriginal case: %s\nimpl: %s\n"
                               % (small, so[0], vlib.run_lines_robust(model, [small])[0][0], ln, co),
                               tag="oracle%d" % nviol)
-        elif mo != co or spec_diff:
+        elif mo != co_cmp or spec_diff:
             # correspondence failure (model, or the specification the model is proved to refine,
             # against the code) without a failure of the property itself on this input
             ndis += 1
             disagree.append(i)
-            if spec_diff and mo == co:
+            if spec_diff and mo == co_cmp:
                 om[i] = "specification verdicts: " + spec.get(i, "")
     run.cov["oracle_failures"] = nviol
     run.cov["disagreements"] = ndis
@@ -284,7 +285,7 @@ def main(run):
                       "case: %s\n\n%s\n" % (sub[idx], err), tag="shift%d" % j)
     nmis = 0
     for ln, a, b in zip(sub, ou, [oc[i] for i, l2 in enumerate(lines) if l2.startswith("rpu") or l2.startswith("rpd")]):
-        if a != b and not a.startswith("CRASH") and nmis < 1:
+        if G.strip_hashes(a) != G.strip_hashes(b) and not a.startswith("CRASH") and nmis < 1:
             nmis += 1
             run.violation("plain and shift-sanitized builds of the driver disagree",
                           "correspondence case: %s\nplain: %s\nsanitized: %s\n" % (ln, b, a),
